@@ -318,7 +318,24 @@ func init() {
 			if n, ok := counts[sk.Name]; ok {
 				return w.RunValidateDefaults(sk, "C15", n)
 			}
-			return w.RunDefaultsSkeleton(sk, "C15")
+			res := w.RunDefaultsSkeleton(sk, "C15")
+			if len(res.SharedWrites) > 0 && len(res.Findings) == 0 {
+				// ApplyDefaults kept something in the Resolved (or the Schema tree): a later call on
+				// another instance can then depend on this one, so the result is no longer a function
+				// of schema and instance. Confirmed natively: two fresh instances around a caller's edit.
+				detail, changed := nativeDefaultsLeak(sk)
+				switch {
+				case detail != "":
+					res.Findings = append(res.Findings, Finding{Property: "C15", Kind: "defaults-state-leak", Skeleton: sk.Name, Family: sk.Family, Doc: sk.Doc,
+						Expected: "the values ApplyDefaults inserts depend only on the schema and the instance", Observed: detail + "; engine: " + res.SharedWrites[0]})
+				case changed:
+					// state is kept in the Resolved but no later result depends on it here: not a
+					// violation of this property (C13 judges the write itself)
+				default:
+					res.EngineErrors = append(res.EngineErrors, "engine reports a write into the Resolved during ApplyDefaults ("+res.SharedWrites[0]+") that the native before/after comparison does not show")
+				}
+			}
+			return res
 		})
 		for i, s := range results {
 			for j := range s.Findings {
@@ -608,4 +625,49 @@ func FamilyValidateDefaults() ([]*Skeleton, map[string]int) {
 	add("ref-inside", J{"properties": J{"a": J{"$ref": "#/$defs/d", "default": "@D0"}}, "$defs": J{"d": J{"type": "integer"}}}, 1)
 	add("object-default", J{"properties": J{"a": J{"type": "object", "properties": J{"b": J{"type": "integer"}}, "additionalProperties": false, "default": "@D0"}}}, 1)
 	return out, counts
+}
+
+// nativeDefaultsLeak applies the defaults to an empty object, edits every inserted container in
+// place, applies them to a second empty object and reports a difference from the first result;
+// it also reports a Resolved that differs (deep comparison) after the first call.
+func nativeDefaultsLeak(sk *Skeleton) (leak string, changed bool) {
+	rs, _, err := NativeResolve(sk)
+	if err != nil {
+		return "", false
+	}
+	before := DeepDump(rs)
+	a, err1, pan := nativeApplyDefaults(rs, map[string]any{})
+	if err1 != nil || pan != nil {
+		return "", false
+	}
+	changed = DeepDump(rs) != before
+	want := canonicalJSON(a)
+	var scribble func(v any)
+	scribble = func(v any) {
+		switch v := v.(type) {
+		case map[string]any:
+			for _, x := range v {
+				scribble(x)
+			}
+			v["verif-edit"] = 99.0
+		case []any:
+			for i := range v {
+				scribble(v[i])
+				if _, ok := v[i].(map[string]any); !ok {
+					if _, ok := v[i].([]any); !ok {
+						v[i] = "verif-edit"
+					}
+				}
+			}
+		}
+	}
+	scribble(a)
+	b, err2, pan2 := nativeApplyDefaults(rs, map[string]any{})
+	if err2 != nil || pan2 != nil {
+		return "", changed
+	}
+	if got := canonicalJSON(b); got != want {
+		return "a second, fresh instance receives " + got + " after the caller edited the first result; the first received " + want, changed
+	}
+	return "", changed
 }
